@@ -32,6 +32,10 @@ ASSUME LET k == K192 IN /\ DecRoundKeys(k)[1] = RoundKeys(k)[13]
                         /\ DecRoundKeys(k)[13] = SubSeq(k, 1, 16)
                         /\ DecRoundKeys(k)[2] = InvMixColumns(RoundKeys(k)[12])
 
+\* fast key schedules = the TLA+ definitions
+ASSUME \A k \in {K128, K192, K256, PatBytes(5, 0, 16), PatBytes(6, 1, 24), PatBytes(7, 2, 32)} :
+          FastRoundKeys(k) = RoundKeys(k) /\ FastDecRoundKeys(k) = DecRoundKeys(k)
+
 \* GF(2^128): Java body against the TLA+ definition, plus algebra
 ZERO16 == [i \in 1..16 |-> 0]
 ASSUME \A b \in 2..6 : LET x == PatBytes(b, 0, 16)  y == PatBytes(b, 16, 16)
